@@ -58,6 +58,11 @@ type World struct {
 	Dgrams []*DgramRec
 	Socks  []*UDPConn
 	Lsns   []*TCPListener
+	// WriteFails lists outbound datagrams whose WriteTo failed (UDPWriteErr);
+	// SockAttempts lists, in order, whether each creation of an unbound (outbound)
+	// UDP socket succeeded.
+	WriteFails   []*DgramRec
+	SockAttempts []bool
 }
 
 const worldKey = "simnet.world"
